@@ -48,10 +48,9 @@ theorem vertexAll_spec (vs ls : List Nat) :
 
 /-- what `UOp.resolve` guarantees about the resolved operation w.r.t. a (later) vertex table -/
 def Resolved (pos : Nat → V3) (vlocs : List Nat) (u : UOp) (o : ROp) : Prop :=
-  let b := applyFaceOps pos u.bottom u.bottomOps
-  let t := applyFaceOps pos u.top u.topOps
-  o.data = b.edges ++ t.edges ++ u.side ∧
-  ∀ c, c < (b.pts ++ t.pts).length → vlocs[o.verts.getD c 0]? = (b.pts ++ t.pts)[c]?
+  let p := u.parts pos
+  o.data = p.1.edges ++ p.2.1.edges ++ p.2.2 ∧
+  ∀ c, c < (p.1.pts ++ p.2.1.pts).length → vlocs[o.verts.getD c 0]? = (p.1.pts ++ p.2.1.pts)[c]?
 
 theorem Resolved.extend {pos : Nat → V3} {vlocs t : List Nat} {u : UOp} {o : ROp}
     (h : Resolved pos vlocs u o) : Resolved pos (vlocs ++ t) u o := by
@@ -70,8 +69,7 @@ theorem resolveAll_spec (pos : Nat → V3) (vs : List Nat) (us : List UOp) :
     have hfin : (resolveAll pos vs (u :: us)).1 = (resolveAll pos (u.resolve pos vs).1 us).1 := rfl
     have hout : (resolveAll pos vs (u :: us)).2 = (u.resolve pos vs).2 :: (resolveAll pos (u.resolve pos vs).1 us).2 := rfl
     obtain ⟨⟨t2, h3⟩, h4⟩ := ih (u.resolve pos vs).1
-    obtain ⟨⟨t1, h1⟩, h2⟩ := vertexAll_spec vs
-      ((applyFaceOps pos u.bottom u.bottomOps).pts ++ (applyFaceOps pos u.top u.topOps).pts)
+    obtain ⟨⟨t1, h1⟩, h2⟩ := vertexAll_spec vs ((u.parts pos).1.pts ++ (u.parts pos).2.1.pts)
     have hr1 : (u.resolve pos vs).1 = vs ++ t1 := h1
     refine ⟨⟨t1 ++ t2, by rw [hfin, h3, hr1, List.append_assoc]⟩, ?_⟩
     intro o ho
